@@ -422,6 +422,149 @@ theorem announceLoop_dialled (cfg : Config) (self : Peer) (h : Hash) :
           · exact .inl h
           · exact .inr ⟨List.mem_cons_of_mem _ h, h', by rw [← hbs]; exact h''⟩
 
+theorem announceResult_inv (cfg : Config) (self : Peer) (h : Hash) (P : State → Prop)
+    (hP : ∀ s p, P s → P (addPending cfg s p h []).1) (peers : List Peer) (s : State) (hs : P s) :
+    P (announceResult cfg s self h peers).1 := by
+  unfold announceResult
+  split
+  · exact hs
+  · exact announceLoop_inv cfg self h P hP peers s [] hs
+
+/-- the announce result leaves blacklist and clock alone; every dialled peer was listed, is not
+ourselves, was not blacklisted, and the torrent is not complete -/
+theorem announceResult_dialled (cfg : Config) (self : Peer) (h : Hash) (peers : List Peer) (s : State) :
+    (announceResult cfg s self h peers).1.blacklist = s.blacklist ∧
+    (announceResult cfg s self h peers).1.now = s.now ∧
+    ∀ q ∈ (announceResult cfg s self h peers).2,
+      q ∈ peers ∧ q ≠ self ∧ blacklisted s q h = false ∧ s.completed.contains h = false := by
+  unfold announceResult
+  split
+  · exact ⟨rfl, rfl, fun q hq => by cases hq⟩
+  · rename_i hc
+    obtain ⟨h1, h2, h3⟩ := announceLoop_dialled cfg self h peers s []
+    refine ⟨h1, h2, ?_⟩
+    intro q hq
+    rcases h3 q hq with hx | ⟨ha, hb, hd⟩
+    · cases hx
+    · exact ⟨ha, hb, hd, by simpa using hc⟩
+
+theorem addPending_completed (cfg : Config) (s : State) (p : Peer) (h : Hash) (nbrs : List Peer) :
+    (addPending cfg s p h nbrs).1.completed = s.completed := by
+  unfold addPending put
+  split
+  · rfl
+  · split
+    · split <;> rfl
+    · rfl
+    · rfl
+
+theorem blacklistOp_completed (cfg : Config) (s : State) (p : Peer) (h : Hash) :
+    (blacklistOp cfg s p h).1.completed = s.completed := by
+  unfold blacklistOp setB
+  split
+  · rfl
+  · split
+    · split <;> rfl
+    · rfl
+
+/-- a torrent that completed stays complete -/
+theorem completed_mono (cfg : Config) (s : State) (o : Op) (h : Hash) (hc : h ∈ s.completed) :
+    h ∈ (step cfg s o).completed := by
+  cases o with
+  | addPending p g nbrs => simp only [step]; rw [addPending_completed]; exact hc
+  | deletePending p g => simp only [step, deletePending, del]; split <;> exact hc
+  | moveActive c =>
+    simp only [step, movePendingToActive, put]
+    split
+    · exact hc
+    · split <;> exact hc
+  | deleteActive c =>
+    simp only [step, deleteActive, del]
+    split
+    · split <;> exact hc
+    · exact hc
+  | blacklist p g => simp only [step]; rw [blacklistOp_completed]; exact hc
+  | clearBlacklist g => exact hc
+  | advance d => exact hc
+  | announceResult self g peers =>
+    exact announceResult_inv cfg self g (fun s => h ∈ s.completed)
+      (fun s p hs => by rw [addPending_completed]; exact hs) peers s hc
+  | connClosed c =>
+    simp only [step, connClosed]; rw [blacklistOp_completed]
+    simp only [deleteActive, del]
+    split
+    · split <;> exact hc
+    · exact hc
+  | failedOutgoing p g =>
+    simp only [step, failedOutgoing]; rw [blacklistOp_completed]
+    simp only [deletePending, del]; split <;> exact hc
+  | complete g => simp only [step, dispatcherComplete, clearBlacklist]; exact List.mem_cons_of_mem _ hc
+
+/-! ### an active entry is only removed by DeleteActive / conn-closed of that very connection -/
+
+theorem lookup_of_conns {s s' : State} (hc : s'.conns = s.conns) (h : Hash) (p : Peer) :
+    lookup s' h p = lookup s h p := by simp [lookup, hc]
+
+theorem addPending_keeps_active (cfg : Config) (s : State) (p : Peer) (h : Hash) (nbrs : List Peer)
+    (h' : Hash) (p' : Peer) (x : ConnId) (hl : lookup s h' p' = some (.active x)) :
+    lookup (addPending cfg s p h nbrs).1 h' p' = some (.active x) := by
+  unfold addPending
+  split
+  · exact hl
+  · split
+    · rename_i hn
+      split
+      · exact hl
+      · have hne : ¬ (h' = h ∧ p' = p) := by
+          rintro ⟨rfl, rfl⟩; rw [hn] at hl; cases hl
+        simp only
+        rw [get_put_other s h p .pending h' p' hne]; exact hl
+    · exact hl
+    · exact hl
+
+theorem deletePending_keeps_active (s : State) (p : Peer) (h : Hash)
+    (h' : Hash) (p' : Peer) (x : ConnId) (hl : lookup s h' p' = some (.active x)) :
+    lookup (deletePending s p h) h' p' = some (.active x) := by
+  unfold deletePending
+  split
+  · rename_i hp
+    have hne : ¬ (h' = h ∧ p' = p) := by
+      rintro ⟨rfl, rfl⟩; rw [hp] at hl; cases hl
+    rw [get_del_other s h p h' p' hne]; exact hl
+  · exact hl
+
+theorem move_keeps_active (s : State) (c : Conn)
+    (h' : Hash) (p' : Peer) (x : ConnId) (hl : lookup s h' p' = some (.active x)) :
+    lookup (movePendingToActive s c).1 h' p' = some (.active x) := by
+  unfold movePendingToActive
+  split
+  · exact hl
+  · split
+    · exact hl
+    · rename_i hp
+      have hp' : lookup s c.hash c.peer = some .pending := by simpa using hp
+      have hne : ¬ (h' = c.hash ∧ p' = c.peer) := by
+        rintro ⟨rfl, rfl⟩; rw [hp'] at hl; cases hl
+      simp only
+      rw [get_put_other s c.hash c.peer _ h' p' hne]; exact hl
+
+theorem deleteActive_keeps_active (s : State) (c : Conn)
+    (h' : Hash) (p' : Peer) (x : ConnId) (hne : c.id ≠ x) (hl : lookup s h' p' = some (.active x)) :
+    lookup (deleteActive s c) h' p' = some (.active x) := by
+  unfold deleteActive
+  split
+  · rename_i id hl2
+    split
+    · exact hl
+    · rename_i hid
+      have hid' : id = c.id := by simpa using hid
+      by_cases hk : h' = c.hash ∧ p' = c.peer
+      · rw [hk.1, hk.2, hl2] at hl
+        simp at hl
+        exact absurd (hid'.symm.trans hl) hne
+      · rw [get_del_other s c.hash c.peer h' p' hk]; exact hl
+  · exact hl
+
 theorem step_within (cfg : Config) (s : State) (o : Op) (hw : WithinMax cfg s) : WithinMax cfg (step cfg s o) := by
   cases o with
   | addPending p h nbrs => exact addPending_within cfg s p h nbrs hw
@@ -432,11 +575,12 @@ theorem step_within (cfg : Config) (s : State) (o : Op) (hw : WithinMax cfg s) :
   | clearBlacklist h => exact within_of_conns (s := s) rfl hw
   | advance d => exact within_of_conns (s := s) rfl hw
   | announceResult self h peers =>
-    exact announceLoop_inv cfg self h (WithinMax cfg) (fun s p hs => addPending_within cfg s p h [] hs) peers s [] hw
+    exact announceResult_inv cfg self h (WithinMax cfg) (fun s p hs => addPending_within cfg s p h [] hs) peers s hw
   | connClosed c =>
     exact within_of_conns (blacklistOp_conns cfg _ _ _) (deleteActive_within cfg s c hw)
   | failedOutgoing p h =>
     exact within_of_conns (blacklistOp_conns cfg _ _ _) (deletePending_within cfg s p h hw)
+  | complete h => exact within_of_conns (s := s) rfl hw
 
 theorem step_keys (cfg : Config) (s : State) (o : Op) (hn : KeysNodup s) : KeysNodup (step cfg s o) := by
   cases o with
@@ -448,11 +592,12 @@ theorem step_keys (cfg : Config) (s : State) (o : Op) (hn : KeysNodup s) : KeysN
   | clearBlacklist h => exact keys_of_conns (s := s) rfl hn
   | advance d => exact keys_of_conns (s := s) rfl hn
   | announceResult self h peers =>
-    exact announceLoop_inv cfg self h KeysNodup (fun s p hs => addPending_keys cfg s p h [] hs) peers s [] hn
+    exact announceResult_inv cfg self h KeysNodup (fun s p hs => addPending_keys cfg s p h [] hs) peers s hn
   | connClosed c =>
     exact keys_of_conns (blacklistOp_conns cfg _ _ _) (deleteActive_keys s c hn)
   | failedOutgoing p h =>
     exact keys_of_conns (blacklistOp_conns cfg _ _ _) (deletePending_keys s p h hn)
+  | complete h => exact keys_of_conns (s := s) rfl hn
 
 /-! ### blacklist duration -/
 
